@@ -25,10 +25,12 @@ CLAIMS = {
         note="std collection method names classify removal/arrival; table rows are function level with reasons.",
         ref="DESIGN.md §5 C02"),
     "C03": dict(
-        technique="same-field def-use analysis of the statistic sum / per-leg accumulator + units-of-measure pass over cost products",
+        technique="same-field def-use analysis of the statistic sum / per-leg accumulator, units-of-measure pass over cost products, who-may-call rule for approximate routing, canonical-expression agreement of sibling queries",
         text="Narrow clauses: the pragmatic Statistic sum is field-wise over every scalar field of Statistic and Timing and the overall statistic folds tour "
              "statistics with it; the per-leg accumulator of create_tour computes every field from the same field of the running statistic; every product "
-             "of a cost coefficient pairs a per-distance coefficient with a distance and a per-time coefficient with a time. Not decided: equality up to "
+             "of a cost coefficient pairs a per-distance coefficient with a distance and a per-time coefficient with a time; report / checker / schedule code "
+             "uses the exact routing queries only (no `_approx`); distance, duration and cost of a reported leg are queried for one (from, to, departure); place "
+             "tags are indexed by place position (enumerate before any filtering). Not decided: equality up to "
              "rounding with an independent replay, load profiles, tag correctness.",
         note="Names distance/duration/waiting/... and Costs field names act as unit declarations; unknown units are silent.",
         ref="DESIGN.md §5 C03"),
@@ -44,7 +46,8 @@ CLAIMS = {
         technique="MIR dominance + TypeId-slot table + Clean/Dirty typestate over the cache-coherence protocol",
         text="Static necessary conditions of cache coherence over every path of every function: the stale bit is unforgeable and cleared only "
              "after all refreshes; per FeatureState impl every per-route slot is refreshed where stale bits are cleared; no hand-over function "
-             "returns a possibly stale route; insert-then-accept pairing. Not decided: that incremental updates compute the same values as recomputation.",
+             "returns a possibly stale route; insert-then-accept pairing; a slot written on some paths only is removed on the others (must-write, presence "
+             "law by finite evaluation) or its guard is constant per route. Not decided: that incremental updates compute the same values as recomputation.",
         note="Assumes CHA resolution of workspace traits, closures may-run at construction site, calls through stored dyn Fn fields not followed.",
         ref="DESIGN.md §5 C05"),
     "C06": dict(
@@ -133,8 +136,9 @@ CLAIMS = {
         technique="sibling-agreement def-use analysis over all TransportCost impls (field roles, index shape) + rejecting-exit inventory",
         text="All routing providers agree structurally: duration methods read only duration data and apply the profile scale, distance methods read only "
              "distance data unscaled, fallbacks match the method; the pragmatic reader feeds MatrixData from the right matrix fields; every provider indexes "
-             "from*size+to; constructors keep their confirmed rejecting checks; unreachable entries become negative in both vectors. Not decided: "
-             "interpolation values, bracketing, symmetry of the coordinate approximation.",
+             "from*size+to; constructors keep their confirmed rejecting checks; unreachable entries become negative in both vectors; the time-aware provider's "
+             "timestamp index is collected from the matrices after they are sorted by timestamp (no separately sorted index); the scientific coordinate "
+             "provider subtracts like coordinates (symmetric, zero diagonal by construction). Not decided: interpolation values, bracketing.",
         note="Per-constructor minimal counts of rejecting exits are a reasoned table; local names durations/distances act as role declarations.",
         ref="DESIGN.md §5 C16"),
     "C17": dict(
